@@ -153,7 +153,7 @@ def run(prop, tier, seed, replay=None):
         if rc != 0:
             if rc is None:
                 raise vlib.Inconclusive("driver srv -mode %s timed out" % mode)
-            if "panic:" in (se or "") or "fatal error:" in (se or ""):
+            if vlib.code_panic(se):
                 crash = (se or "")[-8000:]
             elif "DRIVER-ERROR" in (se or ""):
                 crash = (se or "")[-3000:]
